@@ -396,6 +396,13 @@ impl<'a, 'tcx> Cx<'a, 'tcx> {
                         let v = def.variant(*vidx);
                         o.push(("variant", J::S(v.name.to_string())));
                         o.push(("vidx", J::I(vidx.as_usize() as i128)));
+                        if def.is_enum() {
+                            // discriminant value as the bits a SwitchInt on this enum compares with
+                            let dv = def.discriminant_for_variant(tcx, *vidx);
+                            let bits = dv.ty.primitive_size(tcx).bits();
+                            let mask: u128 = if bits >= 128 { u128::MAX } else { (1u128 << bits) - 1 };
+                            o.push(("dv", J::U(dv.val & mask)));
+                        }
                         o.push(("fields", J::A(v.fields.iter().map(|f| J::S(f.name.to_string())).collect())));
                     }
                     AggregateKind::Closure(did, _) => {
